@@ -146,3 +146,43 @@ func TestC12Core(t *testing.T) {
 		}
 	})
 }
+
+// TestC12FEC: the same arrival script of a group gives the same recoveries
+// wherever the group sits in the id space, in particular across the wrap.
+func TestC12FEC(t *testing.T) {
+	rec := hx.NewRecorder(t)
+	var evals, nontriv int64
+	shard, nshards := hx.Shard()
+	job := 0
+	for d := 1; d <= 3; d++ {
+		for p := 1; d+p <= 4; p++ {
+			n := d + p
+			for k := d; k <= n; k++ {
+				forEachArrangement(n, k, func(order []int) {
+					job++
+					if job%nshards != shard {
+						return
+					}
+					ref, err := c07Run(c07Case{D: d, P: p, Base: 0, Sizes: []int{50, 51, 52}, Order: order})
+					if err != nil {
+						hx.Fail(t, map[string]any{"d": d, "p": p, "order": order}, "C12 FEC base run: %v", err)
+					}
+					for _, base := range c07Bases(n)[1:] {
+						got, err := c07Run(c07Case{D: d, P: p, Base: base, Sizes: []int{50, 51, 52}, Order: order})
+						evals++
+						if base+uint32(2*n) >= pawsOf(n) || base >= 1<<31-uint32(n) && base <= 1<<31+uint32(3*n) {
+							nontriv++
+						}
+						if err != nil || got != ref {
+							hx.Fail(t, map[string]any{"d": d, "p": p, "order": order, "base": base}, "C12 FEC: d=%d p=%d arrival order %v: %d packets recovered with the group at id 0, %d (err=%v) with the group at id %d", d, p, order, ref, got, err, base)
+						}
+					}
+				})
+			}
+		}
+	}
+	rec.Bulk(evals, nontriv)
+	rec.Exhaustive = true
+	rec.Class("fec_position_pairs", evals)
+	rec.Sample(map[string]any{"d": 2, "p": 1, "order": []int{2, 0}, "bases": c07Bases(3)})
+}
